@@ -79,11 +79,14 @@ Section WithData.
   Qed.
 
   (* ---------- the elaborator preserves truth ---------- *)
+  Lemma zs_eqb_sym l : forall m, zs_eqb l m = zs_eqb m l.
+  Proof. induction l as [|x l IH]; intros [|y m]; cbn [zs_eqb]; auto. now rewrite Z.eqb_sym, IH. Qed.
+
   Lemma veqb_sym a b : veqb a b = veqb b a.
   Proof.
     assert (A : forall x y, aeqb x y = aeqb y x).
     { intros x y. unfold aeqb. destruct (num_of x) eqn:Ex, (num_of y) eqn:Ey; try apply Z.eqb_sym;
-        destruct x, y; try reflexivity; try discriminate; try apply String.eqb_sym; apply Nat.eqb_sym. }
+        destruct x, y; try reflexivity; try discriminate; try apply String.eqb_sym; try apply zs_eqb_sym; apply Nat.eqb_sym. }
     destruct a as [x|l], b as [y|m]; cbn [veqb]; auto.
     revert m; induction l as [|x l IH]; intros [|y m]; cbn [leqb]; auto. now rewrite A, IH.
   Qed.
